@@ -35,6 +35,9 @@ var solvers = []solverSpec{
 // machine is doing; the wall-clock limit is wallFactor times larger and only a backstop.
 const wallFactor = 6
 
+// crossSecs: CPU seconds per solver for the cross-check of a proved query in the thorough tier.
+const crossSecs = 20
+
 // Machine-wide solver slots: concurrent govc processes (several checks started at once) share the
 // cores through advisory locks on NumCPU files; without this every process would start NumCPU
 // solvers of its own. The files are created on demand and carry no state.
@@ -253,7 +256,7 @@ func discharge(sc *Script, obls []*Obligation, outDir string, secs int, thorough
 			done := false
 			// strategy hint from an earlier run (which stage and solver proved this obligation): tried
 			// first, alone; the full staged portfolio follows if it does not prove the goal now
-			if h, ok := hints[o.Name]; ok && !thorough && !isCover && h.Stage >= 1 && h.Stage <= 5 && (h.Stage != 3 || abs) {
+			if h, ok := hints[o.Name]; ok && !isCover && h.Stage >= 1 && h.Stage <= 5 && (h.Stage != 3 || abs) {
 				q, t := stageQuery(h.Stage)
 				r = runSolversOnly(tag+q, file, t, h.Solver)
 				if r.status == "unsat" {
@@ -272,7 +275,7 @@ func discharge(sc *Script, obls []*Obligation, outDir string, secs int, thorough
 				}
 				if r.status != "unsat" && abs {
 					q, t := stageQuery(3)
-					r = runSolvers(tag+q, file, t, thorough)
+					r = runSolvers(tag+q, file, t, false)
 					o.Stage = 3
 				}
 				if r.status != "unsat" && r.status != "sat" && len(sc.lines) > 3000 {
@@ -287,8 +290,34 @@ func discharge(sc *Script, obls []*Obligation, outDir string, secs int, thorough
 			}
 			if !done && r.status != "unsat" {
 				q, t := stageQuery(4)
-				r = runSolvers(tag+q, file, t, thorough)
+				// the first definite answer settles the query (thorough tier: cross-checked below)
+				r = runSolvers(tag+q, file, t, false)
 				o.Stage = 4
+			}
+			if thorough && !isCover && r.status == "unsat" && o.Stage >= 1 {
+				// Thorough tier: the query that was proved is given to the other solvers as well
+				// (crossSecs CPU seconds each): none of them may answer "sat". A time-out of a
+				// cross-check is not a disagreement.
+				q, _ := stageQuery(o.Stage)
+				var others []solverSpec
+				for _, sp := range solvers {
+					if sp.name != r.solver {
+						others = append(others, sp)
+					}
+				}
+				rc := runSolverSet(others, tag+q, file+".cross.smt2", crossSecs, true)
+				os.Remove(file + ".cross.smt2")
+				o.Cross = len(others)
+				if rc.status == "sat" || rc.status == "conflict" {
+					r.status = "conflict"
+					r.out = "solvers disagree on the same query: " + r.solver + " unsat, cross-check " + fmt.Sprint(rc.all)
+				} else {
+					for _, st := range rc.all {
+						if st == "unsat" {
+							o.CrossAgree++
+						}
+					}
+				}
 			}
 			if r.status != "unsat" && o.Except != "" && o.Kind != "cover" && o.Kind != "vacuity" {
 				// known finding: does the obligation hold for every input outside the recorded ones?
@@ -303,9 +332,12 @@ func discharge(sc *Script, obls []*Obligation, outDir string, secs int, thorough
 				}
 			}
 			o.Status, o.Solver, o.Secs = r.status, r.solver, r.secs
-			if r.status == "unsat" && os.Getenv("GOVC_KEEP") == "" && o.Kind != "cover" && o.Kind != "vacuity" {
+			// keep the query of an obligation that failed (for a cover / vacuity guard: that was refuted)
+			failed := (r.status != "unsat") != isCover
+			if !failed && os.Getenv("GOVC_KEEP") == "" {
 				os.Remove(file)
-			} else {
+			}
+			if r.status != "unsat" {
 				o.Model = r.out
 			}
 		}(i, o)
